@@ -1781,6 +1781,12 @@ def shard_sp_psbt(ctx: Ctx) -> None:
             n_in = rng.choice([1, 2, 2, 3])
             kinds = [rng.choice(["p2tr", "p2tr", "p2wpkh", "p2sh-p2wpkh"]) for _ in range(n_in)]
             keys = rng.sample(pool, n_in)
+            if n_in >= 2 and it % 4 == 3:
+                # address reuse: two or three eligible inputs spend one key (each still has its own share a*B_scan, equal bytes)
+                for _ in range(rng.choice([1, 1, 2])):
+                    i, j = rng.sample(range(n_in), 2)
+                    keys[j] = keys[i]
+                ctx.stat("sp-psbt:inputs-sharing-a-key")
             ops = [(rng.randbytes(32), rng.randrange(0, 5)) for _ in range(n_in)]
             ineligible = rng.random() < 0.25
             use_global = it % 2 == 1
